@@ -81,6 +81,7 @@ pub fn check_text(ctx: &mut Ctx, s: &str, hash_it: bool) -> Option<usize> {
             }
         }
     }
+    ctx.count("evals");
     ctx.count(if nerr == 0 { "accepted" } else { "with-errors" });
     ctx.count(match nerr {
         0 => "errs:0",
